@@ -4,6 +4,9 @@
 mod common;
 mod engine;
 mod explore;
+mod fixtures_gen;
+mod macrodrv;
+mod macrorun;
 
 use std::env;
 
@@ -20,6 +23,7 @@ fn main() {
         "engine" => engine::cmd_script(rest),
         "engine-rand" => engine::cmd_random(rest),
         "explore" => explore::cmd_explore(rest),
+        "macro" => macrorun::cmd_macro(rest),
         other => {
             eprintln!("unknown subcommand {}", other);
             2
